@@ -206,10 +206,12 @@ bool StepScript(InterpreterEnv& env)
             stack = env.p2shstack;
             // swap(stack, stackCopy);
 
-            // stack cannot be empty here, because if it was the
-            // P2SH  HASH <> EQUAL  scriptPubKey would be evaluated with
-            // an empty stack and the EvalScript above would return false.
-            assert(!stack.empty());
+            // In a plain validation the stack cannot be empty here, because the
+            // P2SH  HASH <> EQUAL  scriptPubKey would have failed on an empty stack.
+            // In the debugger it can: the saved stack is from before the scriptPubKey
+            // ran, and `exec` may have supplied the hashed item afterwards.
+            if (stack.empty())
+                return set_error(serror, SCRIPT_ERR_INVALID_STACK_OPERATION);
 
             const valtype& pubKeySerialized = stack.back();
             CScript pubKey2(pubKeySerialized.begin(), pubKeySerialized.end());
